@@ -215,3 +215,100 @@ def bayer_value_rules(run, db):
                         run.check(not worst, 'C16.kernel', fd.qual, 'flat field on values, %s' % cfa, 'demosaic_malvar(%s): a flat field stays flat in all three channels (every kernel sums to one)' % label,
                                   'demosaic_malvar(%s): %s -- an interpolation kernel does not sum to one' % (label, worst), fd.loc())
     return n_ok
+
+
+def wb_value_rules(run, db):
+    """white-balance prescaling on values: every site of the mosaic is multiplied by the gain of the colour native to it (r, g1, g2, b), for
+    both layouts; and binning of a stack (a leading axis with factor 1) bins each plane"""
+    n_ok = 0
+    fw = db.func(B + 'wb_prescale')
+    for shape in ((4, 4), (2, 6)):
+        for cfa in ('rggb', 'bggr'):
+            it, dom = file_interp(db)
+            R = dom.R
+            label = 'wb_prescale(%dx%d mosaic, cfa=%r)' % (shape[0], shape[1], cfa)
+            holder = {}
+
+            def mk():
+                holder['m'] = _grid(dom, 'm', shape)
+                return holder['m']
+            rets = _one(it, fw, label, mosaic=None, wr=dom.sym('wr'), wg1=dom.sym('wg1'), wg2=dom.sym('wg2'), wb=dom.sym('wb'), cfa=Const(cfa)) if False else None
+            res = it.run(fw, kwargs=lambda: {'mosaic': mk(), 'wr': dom.sym('wr'), 'wg1': dom.sym('wg1'), 'wg2': dom.sym('wg2'), 'wb': dom.sym('wb'), 'cfa': Const(cfa)})
+            if not res or any(p.outcome != 'return' for p in res):
+                raise AnalysisError('%s: not every path returns' % label)
+            for p in res:
+                m = p.frame.env.get('mosaic')
+                out = p.value if isinstance(p.value, FArr) else m
+                got = _cells(dom, out, label)
+                gains = {'r': 'wr', 'g1': 'wg1', 'g2': 'wg2', 'b': 'wb'}
+                bad = ''
+                for i in range(shape[0]):
+                    for j in range(shape[1]):
+                        want = Rat(R.atom('m%d_%d' % (i, j))) * Rat(R.atom(gains[_site_colour(cfa, i, j)[0]]))
+                        if not bad and not (got[i * shape[1] + j] == want):
+                            bad = 'site (%d, %d), native to %s, becomes %s; its gain is %s' % (i, j, _site_colour(cfa, i, j)[0], got[i * shape[1] + j].key()[:80], gains[_site_colour(cfa, i, j)[0]])
+                run.check(not bad, 'C16.bayer', fw.qual, 'white balance on values, %s' % cfa, '%s: every site is scaled by the gain of its own colour' % label, '%s: %s' % (label, bad), fw.loc())
+                n_ok += not bad
+    # stacks: bindown(cube, [1, fy, fx]) bins every plane; [fy, 1, fx] bins along the first and last axis
+    fb = db.func(D + 'bindown')
+    for shape, factor in (((2, 4, 6), (1, 2, 3)), ((4, 2, 6), (2, 1, 3))):
+        for mode in ('sum', 'avg'):
+            it, dom = file_interp(db)
+            R = dom.R
+            label = 'bindown(%dx%dx%d, factor=%s, mode=%r)' % (shape + (list(factor), mode))
+            arr = lambda: FArr.of(shape, [dom.sym('x%d_%d_%d' % (a, i, j)) for a in range(shape[0]) for i in range(shape[1]) for j in range(shape[2])])
+            for p in _one(it, fb, label, array=arr(), factor=Tup([Const(f) for f in factor], 'list'), mode=Const(mode)):
+                v = p.value
+                cells = _cells(dom, v, label)
+                oshape = tuple(s // f for s, f in zip(shape, factor))
+                bad = '' if tuple(v.shape) == oshape else 'the result has shape %s, not %s' % (tuple(v.shape), oshape)
+                if not bad:
+                    import itertools
+                    for k, (a, i, j) in enumerate(itertools.product(*[range(d) for d in oshape])):
+                        want = Rat(R.const(0))
+                        for da in range(factor[0]):
+                            for di in range(factor[1]):
+                                for dj in range(factor[2]):
+                                    want = want + Rat(R.atom('x%d_%d_%d' % (a * factor[0] + da, i * factor[1] + di, j * factor[2] + dj)))
+                        if mode == 'avg':
+                            want = want / (factor[0] * factor[1] * factor[2])
+                        if not (cells[k] == want):
+                            bad = 'output sample (%d, %d, %d) is %s, the %s of its block is %s' % (a, i, j, cells[k].key()[:100], 'sum' if mode == 'sum' else 'mean', want.key()[:100])
+                            break
+                run.check(not bad, 'C16.bin', fb.qual, 'bindown of a stack on values, mode=%s' % mode, '%s: every output sample is the %s of its block' % (label, 'sum' if mode == 'sum' else 'mean'),
+                          '%s: %s' % (label, bad), fb.loc())
+                n_ok += not bad
+    return n_ok
+
+
+def expose_shape_value_rules(run, db):
+    """Detector.expose returns an array of the documented shape -- the shape of the image for one frame, (frames, *shape) for several --
+    also when the image has an axis of length 1 (decided on concrete shapes; the samples are not followed through the noise draws)"""
+    from ..core.interp import Obj, Unknown
+    ci = db.cls(D + 'Detector')
+    f = db.func(D + 'Detector.expose')
+    n_ok = 0
+    for shape in ((2, 3), (1, 3), (3, 1), (1, 1)):
+        for frames in (1, 2):
+            it, dom = file_interp(db)
+            label = 'Detector.expose(%dx%d image, frames=%d)' % (shape[0], shape[1], frames)
+
+            def mk():
+                o = Obj(ci)
+                o.attrs.update({'exposure_time': dom.sym('t'), 'dark_current': dom.sym('dark'), 'dcnu': Const(None), 'prnu': Const(None), 'read_noise': dom.sym('rn'),
+                                'conversion_gain': dom.sym('gain'), 'bias': dom.sym('bias'), 'fwc': dom.sym('fwc'), 'bits': Const(12), 'lut': Const(None)})
+                return o
+            res = it.run(f, kwargs=lambda: {'aerial_img': _grid(dom, 'e', shape), 'frames': Const(frames)}, self_obj=mk)
+            rets = [p for p in res if p.outcome == 'return']
+            if not rets or len(rets) != len(res):
+                raise AnalysisError('%s: not every path returns (%s)' % (label, [getattr(getattr(p.value, 'exc', p.value), 'v', p.value) for p in res if p.outcome != 'return'][:2]))
+            want = shape if frames == 1 else (frames,) + shape
+            for p in rets:
+                v = p.value
+                if not isinstance(v, FArr):
+                    raise AnalysisError('%s: the array that is returned is not followed: %r' % (label, v))
+                ok = tuple(v.shape) == tuple(want)
+                run.check(ok, 'C16.clamp', f.qual, 'shape of the exposure on values', '%s returns an array of shape %s' % (label, tuple(want)),
+                          '%s returns an array of shape %s; the documented shape is %s' % (label, tuple(v.shape), tuple(want)), f.loc())
+                n_ok += ok
+    return n_ok
